@@ -21,6 +21,8 @@ def prop(line, impl, model):
     if impl.startswith("!panic") or impl == "!died":
         return "implementation panicked/died: " + impl[:200]
     try:
+        if op == "jsoak":
+            return (prop_jsoak(line, impl) or (None, None))[1]
         if impl.startswith("!"):
             return None
         if op == "ipc":
@@ -39,8 +41,6 @@ def prop(line, impl, model):
             return (prop_jipcf(line, impl) or (None, None))[1]
         if op == "jconc":
             return (prop_jconc(line, impl) or (None, None))[1]
-        if op == "jsoak":
-            return (prop_jsoak(line, impl) or (None, None))[1]
         if op == "sched":
             return prop_sched(line, impl)
         if op == "bin":
@@ -690,15 +690,18 @@ def prop_jconc(line, impl):
 
 
 def prop_jsoak(line, impl):
-    d = {k: int(v) for k, v in kv(impl).items()}
     a = line.split(" ")
+    if impl.startswith("!fatal"):
+        return ("journal-unserialised-access", "%s goroutines polling through IPC.ProxyPolls with the distinct-IP journal attached: the Go runtime "
+                "stopped the broker process (%s) - two polls inside the journal writer at once" % (a[2], impl[7:].replace("_", " ")))
+    d = {k: int(v) for k, v in kv(impl).items()}
     what = "%s goroutines x %s polls through IPC.ProxyPolls, every poll from its own address, journal interval %s us, every journal Write takes %s us: " % tuple(a[2:6])
     if d["lost"]:
         return ("journal-poll-lost-during-flush", what + "%d of the %d accepted polls are in NO chunk of the journal (read back with the journal's own "
                 "timestamps after a final flush): polls that arrived while another poll was in the disk write of a flush" % (d["lost"], d["polls"]))
-    if d["tiled"] != 1 or d["twice"] or d["extra"]:
-        return ("journal-chunk-written-twice", what + "the chunks do not tile the time line / hold an address twice (tiled=%d, addresses in two "
-                "chunks=%d, cardinals beyond the polls found=%d)" % (d["tiled"], d["twice"], d["extra"]))
+    if d["tiled"] != 1 or d["twice"]:
+        return ("journal-chunk-written-twice", what + "the chunks do not tile the time line / hold an address twice (tiled=%d, sum of the chunk "
+                "cardinals minus the cardinal of their union=%d)" % (d["tiled"], d["twice"]))
     if d["misplaced"]:
         return ("journal-poll-misplaced", what + "%d polls are only in chunks whose span does not meet the time the poll was in flight" % d["misplaced"])
     if d["polls"] != int(a[2]) * int(a[3]):
@@ -754,11 +757,11 @@ def gen_jconc(ctx):
         ops.append("f%d" % (t + rng.choice([1, 2, k + 2])))
         add(k, ops, "jconc-random")
     # unforced: many goroutines, a journal whose every Write is slow
-    soaks = [(4, 150, 400, 200), (8, 60, 250, 300)] if not thorough else \
-            [(4, 150, 400, 200), (8, 60, 250, 300), (8, 1000, 500, 300), (16, 400, 300, 500), (32, 200, 1000, 1000), (3, 2000, 200, 100)]
-    for (g, n, iv, w) in soaks:
-        lines.append("%s jsoak %d %d %d %d" % (AREA, g, n, iv, w)); kinds.append("jsoak")
-    return lines, kinds
+    soaks = [(4, 150, 2000, 500), (8, 100, 3000, 1000)] if not thorough else \
+            [(4, 150, 2000, 500), (8, 100, 3000, 1000), (4, 150, 400, 200), (8, 60, 250, 300), (8, 700, 500, 300), (16, 350, 300, 500), (32, 180, 1000, 1000), (3, 1900, 200, 100),
+             (64, 90, 2000, 1500), (2, 2500, 150, 50)]
+    sl = ["%s jsoak %d %d %d %d" % (AREA, g, n, iv, w) for (g, n, iv, w) in soaks]
+    return lines, kinds, sl, ["jsoak"] * len(sl)
 
 
 # ---------------------------------------------------------------- journal sink that fails
@@ -1001,8 +1004,8 @@ def run(ctx):
     lines, kinds = gen_jipc(ctx)
     ctx.correspond(exe, lines + fb, kinds + fbk, label="broker-journal-call-site", prop=prop, key_of=key_of, impl_args=DRV_ARGS)
     # concurrent polls while the journal's disk is slow (the journal call site is serialised by metrics.lock only)
-    lines, kinds = gen_jconc(ctx)
-    ctx.correspond(exe, lines, kinds, label="broker-journal-concurrent-polls", prop=prop, key_of=key_of, impl_args=DRV_ARGS)
+    lines, kinds, sl, sk = gen_jconc(ctx)      # the soaks run in child processes of the driver (a runtime fatal ends only the child)
+    ctx.correspond(exe, lines + sl, kinds + sk, label="broker-journal-concurrent-polls", prop=prop, key_of=key_of, impl_args=DRV_ARGS)
 
 
 def replay(ctx, doc):
